@@ -70,4 +70,13 @@ def expectedFor_C12 : List (String × String) := [
 /-- the code behind C12 branches on exactly the conditions the model was written against -/
 theorem conditions_as_modelled_C12 : Gen.condSitesFor_C12 = expectedFor_C12 := by rfl
 
+def expectedOptFor_C12 : List (String × String) := [
+  ("v2/diff_read.go:ReadMergeString:Equals#1", "none"),
+  ("v2/object.go:jsonObject.patch:Equals#1", "none"),
+  ("v2/patch_common.go:patch:Equals#1", "none")
+]
+
+/-- every call inside the functions behind C12 passes on the option / metadata list the model passes on -/
+theorem option_plumbing_as_modelled_C12 : Gen.optSitesFor_C12 = expectedOptFor_C12 := by rfl
+
 end Jd.CondSites
